@@ -61,6 +61,52 @@ func serveUpstream(l net.Listener) {
 	}
 }
 
+// startForwarder starts the binary with base flags + extra and waits until it listens.  Ports are chosen anew on
+// every attempt (another process may grab a port between choosing and binding; the machine may be loaded).
+// Returns the proxy address and a stop function; refused = the process exited by itself on every attempt
+// (it does not accept the flags).
+func startForwarder(bin, upstream string, extra []string) (addr string, stop func(), refused bool, err error) {
+	exits := 0
+	for attempt := 0; attempt < 3; attempt++ {
+		addr = freeAddr()
+		args := append([]string{"run", "--address", addr, "--api-address", freeAddr(), "--proxy", "http://" + upstream,
+			"--log-level", "error", "--proxy-localhost", "allow"}, extra...) // loopback targets are refused by default, independently of the lists
+		cmd := exec.Command(bin, args...)
+		cmd.Stdout, cmd.Stderr = os.Stderr, os.Stderr
+		if err := cmd.Start(); err != nil {
+			return "", nil, false, err
+		}
+		exited := make(chan struct{})
+		go func() { cmd.Wait(); close(exited) }()
+		stop = func() {
+			cmd.Process.Kill()
+			<-exited
+		}
+		gone := false
+		for i := 0; i < 300 && !gone; i++ {
+			select {
+			case <-exited:
+				gone = true
+				continue
+			default:
+			}
+			if conn, err := net.DialTimeout("tcp", addr, 100*time.Millisecond); err == nil {
+				conn.Close()
+				return addr, stop, false, nil
+			}
+			time.Sleep(50 * time.Millisecond)
+		}
+		if gone {
+			exits++
+		}
+		stop()
+	}
+	if exits == 3 {
+		return "", func() {}, true, nil
+	}
+	return "", nil, false, fmt.Errorf("forwarder did not start listening in three attempts (flags %q)", extra)
+}
+
 type target struct {
 	Authority string `json:"authority"` // what goes into the request target
 	Bare      string `json:"bare"`      // the host name the rules are about
@@ -184,9 +230,7 @@ func runE2ECase(bin string, c e2eCase) (string, map[string]int, error) {
 	}
 	defer l.Close()
 	go serveUpstream(l)
-	addr, api := freeAddr(), freeAddr()
-	args := []string{"run", "--address", addr, "--api-address", api, "--proxy", "http://" + l.Addr().String(), "--log-level", "error",
-		"--proxy-localhost", "allow"} // loopback targets are refused by default, independently of the lists
+	var args []string
 	var alone []*regexp.Regexp
 	var ents []string
 	for _, e := range c.Entries {
@@ -202,27 +246,14 @@ func runE2ECase(bin string, c e2eCase) (string, map[string]int, error) {
 		args = append(args, "--deny-domains="+t)
 		ents = append(ents, fmt.Sprintf("(%s, %s)", coqfmt.Bool(e.Exclude), Coq(e.Rule)))
 	}
-	cmd := exec.Command(bin, args...)
-	cmd.Stdout, cmd.Stderr = os.Stderr, os.Stderr
-	if err := cmd.Start(); err != nil {
+	addr, stop, refused, err := startForwarder(bin, l.Addr().String(), args)
+	if err != nil {
 		return "", nil, err
 	}
-	defer func() {
-		cmd.Process.Kill()
-		cmd.Wait()
-	}()
-	up := false
-	for i := 0; i < 100; i++ {
-		if conn, err := net.DialTimeout("tcp", addr, 100*time.Millisecond); err == nil {
-			conn.Close()
-			up = true
-			break
-		}
-		time.Sleep(50 * time.Millisecond)
+	if refused {
+		return "", nil, fmt.Errorf("forwarder refuses the flags %q", args)
 	}
-	if !up {
-		return "", nil, fmt.Errorf("forwarder did not start listening on %s (args %q)", addr, args)
-	}
+	defer stop()
 	var obs []string
 	for _, t := range c.Targets {
 		code := probe(addr, t)
@@ -387,9 +418,7 @@ func runRouteCase(bin string, c routeCase) (string, map[string]int, error) {
 	defer ol.Close()
 	go serveOrigin(ol)
 	_, oport, _ := net.SplitHostPort(ol.Addr().String())
-	addr, api := freeAddr(), freeAddr()
-	args := []string{"run", "--address", addr, "--api-address", api, "--proxy", "http://" + ul.Addr().String(), "--log-level", "error",
-		"--proxy-localhost", "allow"}
+	var args []string
 	side := func(flagName string, es []entry) ([]*regexp.Regexp, []string, error) {
 		var alone []*regexp.Regexp
 		var ents []string
@@ -416,32 +445,12 @@ func runRouteCase(bin string, c routeCase) (string, map[string]int, error) {
 	if err != nil {
 		return "", nil, err
 	}
-	cmd := exec.Command(bin, args...)
-	cmd.Stdout, cmd.Stderr = os.Stderr, os.Stderr
-	if err := cmd.Start(); err != nil {
+	addr, stop, refused, err := startForwarder(bin, ul.Addr().String(), args)
+	if err != nil {
 		return "", nil, err
 	}
-	exited := make(chan struct{})
-	go func() { cmd.Wait(); close(exited) }()
-	defer func() {
-		cmd.Process.Kill()
-		<-exited
-	}()
-	up := false
-wait:
-	for i := 0; i < 100; i++ {
-		select {
-		case <-exited: // the binary refused the flags
-			break wait
-		default:
-		}
-		if conn, err := net.DialTimeout("tcp", addr, 100*time.Millisecond); err == nil {
-			conn.Close()
-			up = true
-			break
-		}
-		time.Sleep(50 * time.Millisecond)
-	}
+	defer stop()
+	up := !refused
 	var obs []string
 	if up {
 		for _, t := range c.Targets {
